@@ -106,3 +106,12 @@ fn lit_eval_semantics() {
     let other = VariableId::from_usize(idx + 1);
     assert!(Literal::new(other, negate).eval(&map).is_none());
 }
+
+#[kani::proof]
+fn clause_id_eq() {
+    let a: usize = kani::any();
+    let b: usize = kani::any();
+    kani::assume(a < u32::MAX as usize && b < u32::MAX as usize);
+    kani::cover!(true);
+    assert!((ClauseId::from_usize(a) == ClauseId::from_usize(b)) == (a == b));
+}
